@@ -149,6 +149,9 @@ def expand(e, atomic, depth=0):
     raise ValueError(k)
 
 
+MINALT = {}
+
+
 def translate(pest_path):
     rules = P(tokenize(open(pest_path).read())).rules()
     atomic = {n for n, (m, _) in rules.items() if m == "@"}
@@ -169,18 +172,23 @@ def translate(pest_path):
     # minimal number of tokens every non-terminal derives (fixed point)
     INF = 10 ** 6
     minlen = {n: INF for n in gram}
+    MINALT.clear()
     changed = True
     while changed:
         changed = False
         for n, alts in gram.items():
-            best = INF
-            for a in alts:
+            best, best_k = INF, None
+            for k, a in enumerate(alts):
                 tot = 0
                 for s in a:
                     tot += minlen.get(s[1], INF) if s[0] == "nt" else 1
-                best = min(best, tot)
+                if tot < best:
+                    best, best_k = tot, k
             if best < minlen[n]:
+                # recorded when the length improves: the chosen alternative only mentions rules
+                # whose length was already finite, so following MinAltIx always terminates
                 minlen[n] = best
+                MINALT[n] = best_k + 1
                 changed = True
     return gram, minlen, sorted(atomic & set(rules))
 
@@ -192,7 +200,7 @@ def tla_str(s):
 def emit(gram, minlen, atomic, out_path, pest_path):
     lines = ["------------------------------- MODULE Grammar -------------------------------",
              "(* GENERATED by gen/pest2tla.py from %s -- do not edit.                        *)" % os.path.basename(pest_path),
-             "(* Alts[r] is the set of alternatives of rule r; an alternative is a sequence of  *)",
+             "(* Alts(r) is the sequence of alternatives of rule r; an alternative is a sequence *)",
              "(* symbols [t |-> \"lit\" | \"nt\" | \"tok\", v |-> text / rule name].  Repetitions are   *)",
              "(* bounded to two, predicates dropped, atomic rules are terminals (\"tok\").        *)",
              "EXTENDS Sequences, Naturals", "",
@@ -206,7 +214,7 @@ def emit(gram, minlen, atomic, out_path, pest_path):
         for a in gram[n]:
             syms = ", ".join(("L(%s)" if s[0] == "lit" else "N(%s)" if s[0] == "nt" else "K(%s)") % tla_str(s[1]) for s in a)
             alts.append("<<" + syms + ">>")
-        lines.append("Alts_%s == {%s}" % (n, ",\n    ".join(alts)))
+        lines.append("Alts_%s == <<%s>>" % (n, ",\n    ".join(alts)))
     lines.append("")
     lines.append("Alts(r) ==")
     for i, n in enumerate(names):
@@ -215,6 +223,10 @@ def emit(gram, minlen, atomic, out_path, pest_path):
     lines.append("MinTok(r) ==")
     for i, n in enumerate(names):
         lines.append("    %s r = %s -> %d" % ("CASE" if i == 0 else "  []", tla_str(n), min(minlen[n], 99)))
+    lines.append("")
+    lines.append("MinAltIx(r) ==       \\* an alternative of r deriving MinTok(r) tokens; following it always terminates")
+    for i, n in enumerate(names):
+        lines.append("    %s r = %s -> %d" % ("CASE" if i == 0 else "  []", tla_str(n), MINALT.get(n, 1)))
     lines.append("=============================================================================")
     with open(out_path, "w") as f:
         f.write("\n".join(lines) + "\n")
